@@ -5,9 +5,13 @@ swallowed — over every schedule and cancellation.
 Buffered: if a failure was injected and the terminal's result is `nil`, then the downstream had stopped by itself (an
 early-stopping terminal never sees what the read-ahead met after it stopped).  JSON pipe: after an injected failure the
 write end is never closed cleanly (the reader never sees a well-formed end of document).
+
+Concurrent map and concurrent consume (sections `concmap`, `consume`): the same for a source failure or a mapper /
+callback failure, any number of them; invariants in Proofs/ConcSurface.lean.
 -/
 import ShpanVerif.Proofs.BufferedLive
 import ShpanVerif.Proofs.JsonPipeInv
+import ShpanVerif.Proofs.ConcSurface
 
 namespace ShpanVerif.Props.C03
 open ShpanVerif.Model.Conc
@@ -92,5 +96,103 @@ theorem C03_async_pipe {cfg : JsonPipe.Cfg} {s : JsonPipe.St} (hr : Reachable (J
   ((psurf hr).faulted_pc hf).2
 
 end pipe
+
+section concmap
+open ShpanVerif.Model.ConcMap ShpanVerif.Proofs.ConcSurface
+
+/-- **The concurrent map never swallows a failure**: a source failure (Emit error, recovered panic) or a mapper failure
+    was injected and the terminal returned `nil` ⇒ the downstream had stopped by itself (Limit / FindFirst: what the
+    read-ahead meets after the stop is never seen).  Every schedule, every cancellation, any number of failures.
+    Invariant `MSurf` (Proofs/ConcSurface.lean): while the result is undecided and the caller ctx is live the error
+    item is in the producer's hand, in srcChan, held by a worker or in tgtChan (channels are FIFO and the consumer
+    returns `nil` only on "closed and empty"); it is dropped only at a select whose other branch is a cancelled
+    context, and then — with the order of checks of fix 619e47e (`fix24`) — the result is the context's error. -/
+theorem C03_async_concmap {cfg : ConcMap.Cfg} {s : ConcMap.St} (hc : 0 < cfg.c) (hfix : cfg.fix24 = true)
+    (hr : Reachable (ConcMap.sys cfg) s) (hf : s.faulted = true) (hok : s.res = some .ok) : s.stopped = true := by
+  cases hst : s.stopped
+  · have := ((msurf hc hfix hr).ok_clean hok hst).1
+    simp [hf] at this
+  · rfl
+
+/-- the same, read the other way: after an injected failure an undisturbed terminal never reports `nil` -/
+theorem C03_async_concmap' {cfg : ConcMap.Cfg} {s : ConcMap.St} (hc : 0 < cfg.c) (hfix : cfg.fix24 = true)
+    (hr : Reachable (ConcMap.sys cfg) s) (hf : s.faulted = true) (hns : s.stopped = false) : s.res ≠ some .ok := by
+  intro hok
+  have := C03_async_concmap hc hfix hr hf hok
+  simp [hns] at this
+
+/-- non-vacuity: a source failure travels producer → srcChan → worker → tgtChan → consumer -/
+example : ∃ s, Reachable (ConcMap.sys { n := 1, c := 1, e := 1 }) s ∧
+    (s.faulted && s.res == some .errOther && !s.stopped) = true :=
+  checkRun_reachable (ls := [.cCheck, .pTop, .pEmitErr, .pSend, .wRecv, .wSend .err, .cRecv]) (by decide)
+
+/-- non-vacuity: a mapper failure after one delivered element -/
+example : ∃ s, Reachable (ConcMap.sys { n := 2, c := 2 }) s ∧
+    (s.faulted && s.res == some .errOther && !s.stopped && s.delivered == [0]) = true :=
+  checkRun_reachable
+    (ls := [.pTop, .pEmitVal, .pSend, .pTop, .pEmitVal, .pSend, .wRecv, .wRecv, .wMapOk 0, .wMapErr 1, .wSend (.val 0),
+            .wSend .err, .cCheck, .cRecv, .cNext, .cCheck, .cRecv]) (by decide)
+
+/-- non-vacuity of the hypotheses (and the `stopped` conclusion is needed): the downstream stops after the first
+    element, the read-ahead then meets a source failure that nobody will see -/
+example : ∃ s, Reachable (ConcMap.sys { n := 2, c := 1, e := 1 }) s ∧
+    (s.faulted && s.res == some .ok && s.stopped) = true :=
+  checkRun_reachable
+    (ls := [.pTop, .pEmitVal, .pSend, .wRecv, .wMapOk 0, .wSend (.val 0), .cCheck, .cRecv, .cStop, .pTop, .pEmitErr])
+    (by decide)
+
+/-- the statement depends on the order of checks of fix 619e47e (finding D24): with the earlier order (eofCtx before
+    ctx) a source failure followed by io.EOF, then a cancellation that makes the worker leave the error item in srcChan,
+    ends in `nil` — the failure is swallowed. -/
+def d24SwallowSchedule : List ConcMap.Label :=
+  [.cCheck, .pTop, .pEmitErr, .pSend, .pTop, .pEmitEof, .pStop, .pCloseSrc, .cancel, .wExitCtx, .pWait, .cClosed]
+
+theorem C03_witness_concmap_swallow_prefix :
+    ∃ s, Reachable (ConcMap.sys { n := 0, c := 1, e := 1, fix24 := false }) s ∧
+      (s.faulted && s.res == some .ok && !s.stopped) = true :=
+  checkRun_reachable (ls := d24SwallowSchedule) (by decide)
+
+/-- the same schedule on the code as it is gives the context's error -/
+example : ∃ s, Reachable (ConcMap.sys { n := 0, c := 1, e := 1 }) s ∧ (s.faulted && s.res == some .errCtx) = true :=
+  checkRun_reachable (ls := d24SwallowSchedule) (by decide)
+
+end concmap
+
+section consume
+open ShpanVerif.Model.ConcConsume ShpanVerif.Proofs.ConcSurface
+
+/-- **The concurrent consume terminal never swallows a failure**: after a source failure or a callback failure was
+    injected the terminal never returns `nil` (there is no downstream that could stop by itself, so no exception).
+    Every schedule, every cancellation.  Invariant `CSurf` (Proofs/ConcSurface.lean): while no error is recorded and the
+    caller ctx is live, the error item is in the producer's hand or in itemChan, and a worker exits only when itemChan
+    is closed and drained; the item is dropped or drained away only when workerCtx is cancelled, i.e. `firstErr` is set
+    (result: that error) or the caller ctx is cancelled (result: the context's error). -/
+theorem C03_async_consume {cfg : ConcConsume.Cfg} {s : ConcConsume.St} (hc : 0 < cfg.c)
+    (hr : Reachable (ConcConsume.sys cfg) s) (hf : s.faulted = true) : s.res ≠ some .ok := by
+  intro hok
+  have := (csurf hc hr).ok_clean hok
+  simp [hf] at this
+
+/-- non-vacuity: a source failure reaches a worker and becomes the result -/
+example : ∃ s, Reachable (ConcConsume.sys { n := 1, c := 1, e := 1 }) s ∧
+    (s.faulted && s.res == some .errOther) = true :=
+  checkRun_reachable (ls := [.pCheck, .pEmitErr, .pSend, .wRecv, .pClose, .tWaitWg, .tWaitProd, .tResult]) (by decide)
+
+/-- non-vacuity: a callback failure with a second element still queued (it is drained away) -/
+example : ∃ s, Reachable (ConcConsume.sys { n := 2, c := 1 }) s ∧
+    (s.faulted && s.res == some .errOther && s.called == [0]) = true :=
+  checkRun_reachable
+    (ls := [.pCheck, .pEmitVal, .pSend, .wRecv, .pCheck, .pEmitVal, .pSend, .wCbErr 0, .pCheck, .pClose, .tWaitWg,
+            .tWaitProd, .tResult]) (by decide)
+
+/-- non-vacuity: the error item is dropped at the producer's select because the caller cancelled: the result is the
+    context's error, not `nil` -/
+example : ∃ s, Reachable (ConcConsume.sys { n := 1, c := 1, e := 1 }) s ∧
+    (s.faulted && s.res == some .errCtx) = true :=
+  checkRun_reachable
+    (ls := [.pCheck, .pEmitErr, .cancel, .pDrop, .pClose, .wToDrain, .wDrainExit, .tWaitWg, .tWaitProd, .tResult])
+    (by decide)
+
+end consume
 
 end ShpanVerif.Props.C03
